@@ -346,3 +346,28 @@ def one_context(O, rep):
                 rep.fail(O, p, "handle_io hands extract_output_values a context that is not the one the answer was installed in")
     if n == 0:
         O.inconclusive("vacuous: none of the context-taking calls was seen")
+
+
+GET_ROW_ALLOWED = (r"StmtIterator::next_with_context$", r"::expand_x$", r"::expand_c$", r"::check_changed_entries$",
+                   r"::generate_input_entries$", r"::generate_expected_entries$")
+
+
+def get_row_is_the_pipeline(O, rep):
+    """get_row is: take a row from the interpreter (or the cache), expand X, expand C, compare with the previous row,
+    generate the input and expected entries - and nothing else of the crate touches the evaluated entries on the way (no
+    extra pass that rewrites, reduces or re-orders them before the per-signal closures see them)."""
+    import re
+    fn = O.find("::get_row")
+    eng = O.engine()
+    eng.auto_inline = False
+    n = 0
+    for p in O.explore(eng, fn):
+        if p.outcome == "infeasible":
+            continue
+        n += 1
+        for e in p.trace:
+            if e.kind == "call" and e.crate and not any(re.search(a, e.norm) for a in GET_ROW_ALLOWED):
+                rep.fail(O, p, "get_row also runs %s over the row" % e.norm.split("::")[-1])
+                break
+    if n == 0:
+        O.inconclusive("vacuous: get_row has no path")
